@@ -212,6 +212,19 @@ def resolve_bad(root: Any, other: Any, op: dict) -> Bad:
         b.nontrivial = len(P.meta) > 0
         b.call = lambda: P.meta.__setitem__(op['key'], node)
         return b
+    if k == 'custom-ctor':
+        # a constructor given a node that still lives in a document: refused, and that document is not touched on the way
+        import datetime
+        node = _find_attached(other if op.get('src_other') else root, ['number_expr', 'amount'], op.get('sel', 0))
+        first = models.NumberExpr.from_value(decimal.Decimal(1))
+        b.cls, b.must_raise, b.key = 'a:attached', True, f'attached:custom-{op.get("how", "from_value")}'
+        b.what = f'Custom.{op.get("how", "from_value")}(values=[1, attached {type(node).__name__} {O.print_text(node)!r}])'
+        b.nontrivial = True
+        if op.get('how') == 'from_children':
+            b.call = lambda: models.Custom.from_children(models.Date.from_value(datetime.date(2000, 1, 1)), models.EscapedString.from_value('t'), [first, node])
+        else:
+            b.call = lambda: models.Custom.from_value(datetime.date(2000, 1, 1), 't', [decimal.Decimal(1), node])
+        return b
     if k == 'from_children':
         node = _find_attached(root, ['number_expr'], op.get('sel', 0))
         cur = OPS._donor({'k': 'CURRENCY', 't': 'USD'})
@@ -536,6 +549,8 @@ def _gen_bad(g: L.G, root: Any) -> Optional[dict]:
         if dst.get('op') == 'mapset':
             op['key'] = g.meta_key()[1][:-1]
         return op
+    if x == 5 and g.p(0.4):
+        return {'f': 'bad', 'k': 'custom-ctor', 'how': g.pick(['from_value', 'from_children']), 'sel': g.n(0, 50), 'src_other': g.p(0.5)}
     if x == 5:
         names = sorted(n for n in idx if hasattr(idx[n][0], 'meta'))
         if not names:
@@ -620,6 +635,14 @@ def _enum_costforms(maxlen: int):
                 yield {'kind': 'costform', 'form': form['text'], 'ops': list(seq)}
 
 
+def _enum_custom_ctor():
+    doc = [[['X', '2000-01-01 custom "a" "s" -3\n2000-01-02 custom "b" 5 +2 USD\n2000-01-03 balance Assets:A  -4 USD\n2000-01-04 custom "c" 7\n']]]
+    for how in ('from_value', 'from_children'):
+        for sel in range(8):
+            for src_other in (False, True):
+                yield {'dirs': doc, 'dirs2': doc, 'ops': [{'f': 'bad', 'k': 'custom-ctor', 'how': how, 'sel': sel, 'src_other': src_other}]}
+
+
 def _enum_attached():
     """Every node-accepting slot and list of every class, in each presence state: assignment of a node that still lives elsewhere in the document."""
     import collections
@@ -660,4 +683,5 @@ def _enum_attached():
 def jobs(tier: str) -> list[Job]:
     return [Job('refusals', 'hyp', lambda: _build(tier), 4000 if tier == 'quick' else 150000),
             Job('attached-sweep', 'enum', _enum_attached, exhaustive=True),
+            Job('custom-constructor-attached', 'enum', _enum_custom_ctor, exhaustive=True),
             Job('cost-forms', 'enum', lambda: _enum_costforms(2 if tier == 'quick' else 3), exhaustive=True)]
